@@ -1,6 +1,6 @@
 -- C13: the streaming byte reader (`ReadAdapter`) is equivalent to the in-memory reader (`SliceReader`).
 --
--- Model: Winter/Model/Reader.lean (the adapter as repaired by the four `fix:` commits recorded in
+-- Model: Winter/Model/Reader.lean (the adapter as repaired by the five `fix:` commits recorded in
 -- known_findings.json).  Source model: the list of results of the successive `read` calls of the
 -- underlying `std::io::Read` (`[]` = `Ok(0)`), arbitrary otherwise; `Fused` = the source honours the
 -- `Read` end-of-stream contract (no byte after an `Ok(0)`).  Abstraction:
